@@ -28,7 +28,8 @@ RULE = {"sm": ("/submodels", "submodel_id", "sm"), "shell": ("/shells", "aas_id"
         "cd": ("/concept-descriptions", "concept_id", "cd")}
 TOPNAMES = {"p1": "P", "c1": "C", "f1": "F", "f5": "F", "b1": "B", "l1": "L", "p9": "P", "v1": "?", "v2": "?"}
 G.RSI_IDS.update({IDS["sm"][1], "urn:dangling"})      # references to these carry a referredSemanticId
-PATHS = ["p1", "c1", "c1.p2", "c1.c2", "c1.c2.p3", "f1", "b1", "l1", "p9", "v1", "v2", "c1.v3", "zz", "c1.zz", "p1.x"]
+PATHS = ["p1", "c1", "c1.p2", "c1.c2", "c1.c2.p3", "f1", "b1", "l1", "p9", "v1", "v2", "c1.v3", "zz", "c1.zz", "p1.x",
+         "l1.abc", "l1.x9"]
 ACC = [(None, "json"), ("application/json", "json"), ("application/xml", "xml"), ("text/xml", "textxml")]
 FMT = ["json", "json", "xml", "textxml"]
 
@@ -107,8 +108,8 @@ def gen_request(rng):
     if x < 0.45:
         return rq(one, "DELETE", cls="delete-" + kind, **{arg: seg})
     if x < 0.53:       # nested element create
-        parent = rng.choice([None, None, "c1", "c1.c2", "l1", "p1"])
-        name = rng.choice(list(TOPNAMES)) if parent is None else {"c1": rng.choice(["p2", "c2", "v3"]), "c1.c2": "p3", "l1": None, "p1": "p2"}[parent]
+        parent = rng.choice([None, None, "c1", "c1.c2", "l1", "p1", "l1.abc"])
+        name = rng.choice(list(TOPNAMES)) if parent is None else {"c1": rng.choice(["p2", "c2", "v3"]), "c1.c2": "p3", "l1": None, "p1": "p2", "l1.abc": "p2"}[parent]
         e = dict(mk_elem(rng, name if name else "p1"), k="elem")
         if parent == "l1":
             e["ids"] = None if rng.random() < 0.8 else "p1"
@@ -129,12 +130,14 @@ def gen_request(rng):
     if x < 0.74:
         p = rng.choice(PATHS[:9])
         e = dict(mk_elem(rng, p.split(".")[-1]), k="elem")
+        if rng.random() < 0.2:      # another idShort (free, taken by a sibling, or none): same first letter = same class
+            e["ids"] = rng.choice([p.split(".")[-1][0] + "8", p.split(".")[-1][0] + "1", p.split(".")[-1][0] + "2", None])
         q = [("level", "core")] if rng.random() < 0.2 else []
         return rq(smone + "/submodel-elements/<id_short_path:id_shorts>", "PUT", body=("val", fmt, e), sm=smseg, path=p, query=q, cls="put-elem")
     if x < 0.79:
         return rq(smone + "/submodel-elements/<id_short_path:id_shorts>", "DELETE", sm=smseg, path=rng.choice(PATHS), cls="delete-elem")
     if x < 0.90:      # qualifiers
-        p = rng.choice([None, None, "p1", "c1", "c1.p2"])
+        p = rng.choice([None, None, "p1", "c1", "c1.p2", "l1.abc", "zz"])
         base = smone + ("/submodel-elements/<id_short_path:id_shorts>" if p else "") + "/qualifiers"
         kw = {"sm": smseg}
         if p:
@@ -153,7 +156,7 @@ def gen_request(rng):
             return rq(one_q, "PUT", body=("val", fmt, {"k": "qual", "type": rng.choice(CS.QTYPES), "val": rng.randrange(1, 9)}), cls="put-qual", **kw)
         return rq(one_q, "DELETE", cls="delete-qual", **kw)
     if x < 0.94:      # attachments
-        p = rng.choice(["f1", "f1", "f5", "f5", "b1", "p1", "c1"])
+        p = rng.choice(["f1", "f1", "f5", "f5", "b1", "p1", "c1", "l1.abc"])
         base = smone + "/submodel-elements/<id_short_path:id_shorts>/attachment"
         y = rng.random()
         if y < 0.4:
@@ -184,6 +187,29 @@ def gen_request(rng):
     return rq(aone + "/submodels/<base64url:submodel_id>", "PUT", body=("val", fmt, sm), aas=aseg, sm=smseg, cls="put-via-shell")
 
 
+def gen_attachment_history(rng, n):
+    """PUT / GET / DELETE .../attachment over three File elements, three file names and three contents: the same
+    bytes under several names, the same name for different bytes, re-uploads after a delete"""
+    J = (None, "json")
+    sm = {"k": "sm", "id": "urn:att", "ids": "Att", "tok": 1, "quals": [],
+          "elems": [CS.F("f1", None), CS.F("f5", None), CS.F("f6", None, ctype=1), CS.B("b1", 1)]}
+    att = "/submodels/<base64url:submodel_id>/submodel-elements/<id_short_path:id_shorts>/attachment"
+    out = [{"rule": "/submodels", "method": "POST", "accept": J, "query": [], "cls": "post-sm", "body": ("val", "json", sm)}]
+    while len(out) < n:
+        p = rng.choice(["f1", "f1", "f5", "f5", "f6", "b1"])
+        x = rng.random()
+        rq = {"rule": att, "accept": rng.choice(ACC), "query": [], "body": ("none",), "sm": b64("urn:att"), "path": p}
+        if x < 0.4:
+            rq.update(method="PUT", cls="put-attachment",
+                      body=("upload", rng.choice(["/aasx/a.txt", "/aasx/a.txt", "/aasx/b.bin", "/c"]), (1 if p == "f6" else 0, rng.randrange(1, 4))))
+        elif x < 0.7:
+            rq.update(method="GET", cls="get-attachment")
+        else:
+            rq.update(method="DELETE", cls="delete-attachment")
+        out.append(rq)
+    return out
+
+
 def gen_history(rng, n, backed=False):
     out = []
     # start with something to work on
@@ -193,8 +219,6 @@ def gen_history(rng, n, backed=False):
                     "body": ("val", "json", mk_top(rng, kind, IDS[kind][0]))})
     while len(out) < n:
         r = gen_request(rng)
-        if CS.renames(r) and r["body"][2]["k"] == "elem":
-            continue
         if backed and r["cls"] == "post-into-list":
             continue        # open finding C10:raises:post-into-list:local-file (see directed()); outside the model
         if backed and r["cls"] in ("list-sm", "list-shell", "list-cd"):
@@ -251,8 +275,15 @@ def oracle_history(srv, backed, reqs, routes):
     refs = {}         # shell identifier -> set of submodel identifiers it references
     has_get = {r for (r, ms, e) in routes if "GET" in ms}
     for k, req in enumerate(reqs):
+        addressed = None
+        if req.get("path") and req.get("sm") and H.decode_label(req["sm"])[0] == "ok" and "id_shorts" in req["rule"]:
+            s0, _ = get_json(srv, f"{G.BASE}/submodels/{req['sm']}/submodel-elements/{req['path']}")
+            addressed = s0 == 200
         url, resp, exc = srv.fire(req)
         ep = srv.endpoint_of(req, url)
+        if exc is None and addressed is False and resp.status_code < 400 and ep != "not_implemented":
+            fails.append((k, "unknown-path", f"a request on an idShort path that addresses no element (GET of the path is not 200) "
+                                             f"was answered {resp.status_code}", ep))
         if exc is not None:
             fails.append((k, "raises", f"{type(exc).__name__}: {str(exc)[:100]}", ep))
             continue
@@ -351,6 +382,19 @@ def oracle_history(srv, backed, reqs, routes):
                 lab = H.decode_label(req["sm"])
                 if lab[1] in ref:
                     ref[lab[1]] = ("sm", None)
+        # ---- the core level of answers (JSON; for XML see the open finding core-level-ignored-for-xml)
+        if st == 200 and req["method"] == "GET" and req["accept"][1] == "json" and resp.data and ep and \
+                (core or ep.endswith("_metadata")) and not ep.endswith("_reference") and "qualifiers" not in ep \
+                and not ep.startswith("get_aas"):       # the shell routes have no level option
+            try:
+                got = G.abs_json(json.loads(resp.data))
+            except Exception:
+                got = None
+            items = got["items"] if isinstance(got, dict) and got.get("k") == "page" else (got if isinstance(got, list) else [got])
+            for x in items:
+                if isinstance(x, dict) and (x.get("quals") or x.get("elems") or x.get("children") or x.get("refs")):
+                    fails.append((k, "core-view", "an answer at core level carries qualifiers / nested elements / references", ep))
+                    break
         # ---- generic probes
         loc = resp.headers.get("Location")
         if st == 201 and loc and val is not None and val["k"] in ("sm", "shell", "cd", "elem", "qual"):
@@ -368,6 +412,10 @@ def oracle_history(srv, backed, reqs, routes):
                 fails.append((k, "attachment", f"GET of the attachment after its upload returned 204 -> {r2.status_code}, "
                                                f"{'other bytes than uploaded' if r2.status_code == 200 else 'no content'}", ep))
             uploads[url] = want
+        if ep == "get_submodel_submodel_element_attachment" and url in uploads:
+            if st != 200 or resp.data != uploads[url]:
+                fails.append((k, "attachment", f"GET of an attachment that was uploaded and not deleted -> {st}"
+                                               f"{', other bytes than uploaded' if st == 200 else ''}", ep))
         if ep == "delete_submodel_submodel_element_attachment" and st == 204:
             uploads.pop(url, None)
             for u2, want in list(uploads.items()):
@@ -376,7 +424,7 @@ def oracle_history(srv, backed, reqs, routes):
                     # the element may have been deleted or replaced meanwhile: only an existing File element counts
                     r3 = srv.client.get(u2[:-len("/attachment")])
                     if r3.status_code == 200 and b'"value"' in r3.data:
-                        fails.append((k, "attachment", "deleting one attachment made another element's attachment unavailable (404)", ep))
+                        fails.append((k, "shared-attachment", "deleting one attachment made another element's attachment unavailable (404)", ep))
                         uploads.pop(u2, None)
         if req["method"] in ("PUT", "DELETE", "POST") and st < 300 and ep not in ("put_submodel_submodel_element_attachment", "delete_submodel_submodel_element_attachment"):
             uploads.clear()     # elements may have been replaced or removed: forget what was uploaded
@@ -384,6 +432,14 @@ def oracle_history(srv, backed, reqs, routes):
             s2, _ = get_json(srv, url)
             if s2 != 404:
                 fails.append((k, "delete-probe", f"resource still answered {s2} after its DELETE returned 204", ep))
+        if req["method"] == "PUT" and st == 204 and val is not None and val["k"] == "elem" and CS.renames(req) and val.get("ids"):
+            segs = req["path"].split(".")
+            base_u = f"{G.BASE}/submodels/{req['sm']}/submodel-elements/"
+            s_new, got = get_json(srv, base_u + ".".join(segs[:-1] + [val["ids"]]))
+            s_old, _ = get_json(srv, base_u + req["path"])
+            sent = core_view(val) if core else val
+            if s_new != 200 or s_old != 404 or norm(got) != norm(sent):
+                fails.append((k, "own-id", f"after a PUT that changed the idShort: GET new path -> {s_new}, GET old path -> {s_old}", ep))
         if req["method"] == "PUT" and st == 204 and val is not None and val["k"] in ("sm", "shell", "cd", "elem") \
                 and req["rule"] in has_get and not CS.renames(req):
             s2, got = get_json(srv, H.url_of(dict(req, query=[])))
@@ -518,6 +574,10 @@ def run(chk):
         reqs = gen_history(rng, hl, backed)
         hist.append((backed, reqs))
         plans.append(([], [], backed, reqs, False))
+    for k in range(nh // 5):
+        reqs = gen_attachment_history(rng, hl)
+        hist.append((k % 2 == 1, reqs))
+        plans.append(([], [], k % 2 == 1, reqs, False))
     for (label, backed, reqs, oracle_only) in CS.scenarios():
         if not oracle_only:
             plans.append(([], [], backed, reqs, False))   # the model follows the renamed store
